@@ -16,7 +16,12 @@ result = {'status': 'ok'|'build_exc'|'bytes_exc', 'exc': [class names], 'bytes':
           'names3': [[name, index, chans]], 'desc': canonical SynthDesc | None, 'desc_exc': str,
           'base': hex | None}
 """
-import json, math, os, struct, sys, operator, traceback
+import json, math, os, struct, sys, operator, traceback, resource
+# a malformed definition can make the library's reader allocate gigabytes: fail with MemoryError instead
+try:
+    resource.setrlimit(resource.RLIMIT_AS, (8 << 30, 8 << 30))
+except Exception:
+    pass
 
 import sc3
 sc3.init(os.environ.get('SC3_MODE', 'nrt'))
@@ -314,6 +319,9 @@ def run_case(prog):
         res['order'] = [[getattr(u, '_c02_birth', -1), isinstance(u, ugn.WidthFirstUGen)] for u in sd._children]
         res['names3'] = [[cn.name, cn.index, len(utl.as_list(cn.default_value))]
                          for cn in sd._all_control_names if cn.rate != 'noncontrol']
+        CN_RATE = {'scalar': 0, 'trigger': 1, 'control': 1, 'audio': 2}
+        res['decl'] = [[cn.name, cn.index, CN_RATE.get(cn.rate, -1), [f32word(x) for x in utl.as_list(cn.default_value)]]
+                       for cn in sd._all_control_names if cn.rate != 'noncontrol']
         if res['bytes'] is not None:
             try:
                 res['desc'] = canon_desc(SynthDesc.new_from(sd))
